@@ -98,7 +98,9 @@ class SchedRun:
         return cnt, byt
 
     def _counters(self, where):
-        if self.cbad:
+        if self.cbad or self.mon is not None:
+            # (reading size(f) registers f in the scheduler's defaultdict counters: with a Monitor attached the harness
+            # keeps its hands off, so that the monitor alone decides which flows it has seen)
             return
         s = self.sched
         cnt, byt = self._expected()
